@@ -25,6 +25,9 @@ COQ_NEEDS = ["Delta.DeltaVerifyHyp"]
 RULE = ("pairs as in C01 (ordered mode; random nested values with 1-3 edits, planted atom-list edits, independent pairs) + planted clash pairs "
         "(difflib removes and adds one index: mutual_add_removes merges them) + pairs with permuted dict key order, x zip x threshold; "
         "subtraction also from the sum t1+d itself, from t2 with reversed dict orders and from t2 corrupted at a changed location; "
+        "13 % of the pairs carry shared container objects (one object at two positions of t1 / of t2, t2 holding t1's own objects where they agree; never edited); "
+        "for 20 % of the deltas two (construction shape in {DeepDiff object, verify_symmetry alias, Mapping, serialized bytes}) x (flag combination of "
+        "always_include_values / mutate / force / log_errors / raise_errors) variants are checked for inversion and refusal of a corrupted base; "
         "the refusal of subtraction is checked for bidirectional=False x always_include_values x raise_errors; operation sequences (+corrupted, +corrupted, +t1, -t2, +corrupted, +corrupted) "
         "on ONE Delta object (raise_errors True and False) are compared step by step with a fresh object and with the pure model; "
         "for each delta every values_changed / type_changes path is corrupted once with a value that differs (Python !=) from the recorded "
@@ -186,7 +189,7 @@ def doc_cases(ctx, cases):
                 same_order = V.canon(back) == V.canon(t1)
                 ctx.count("doc:sub_result_equal_but_reordered" if (V.typed_eq(back, t1) and not same_order) else "doc:sub_result_identical")
                 if not V.typed_eq(back, t1):
-                    ctx.fail(dict(t1=repr(t1), t2=repr(t2), cfg=cfg, observed=repr(back), **c01.describe(t1, t2)), "t2 - d != t1 on a documented witness")
+                    ctx.fail(dict(clause=INVERSION, t1=repr(t1), t2=repr(t2), cfg=cfg, observed=repr(back), **c01.describe(t1, t2)), "t2 - d != t1 on a documented witness")
                 continue
             try:
                 copy.deepcopy(base) + Delta(dd, bidirectional=True, raise_errors=True)
@@ -218,7 +221,7 @@ def ntp_vals(t2, d):
     return True
 
 
-def hyp_expr8(t1, t2, zip_, thr, conv_tbl, kn, rrem, radd):
+def hyp_expr8(t1, t2, zip_, thr, conv_tbl, kn, rrem, radd, kn1=True):
     """Coq expression (sx) of the observed guards of the C08 theorems on the bidirectional delta of the diff:
     indep_verified d (claimed by C08_indep_guard_of_diff when keys_nonneg t2), ops_ok 0 on every difflib opcode
     list (ops_disjoint), sym_okb on every entry of the result tree (sym_ok incl. moved_identical), keys_nonneg t2,
@@ -227,19 +230,20 @@ def hyp_expr8(t1, t2, zip_, thr, conv_tbl, kn, rrem, radd):
     ops = D.coq_ops_table(D.opcode_table(t1, t2))
     return ("(let r := run_diff hatom_deep (tbl_udiff %s) (tbl_ops %s) no_paths no_paths %s %s %s in "
             "let d := to_delta (tbl_conv %s) true false (tbl_ops %s) %s %s (fst r) (snd r) in "
-            "sx_c08hyp11 %s (ops_table_disjointb %s) (forallb sym_okb (fst r)) (keys_nonneg %s) (korderb %s %s) "
+            "sx_c08hyp12 %s (ops_table_disjointb %s) (forallb sym_okb (fst r)) (keys_nonneg %s) (korderb %s %s) "
             "(no_clashb (fst (diff hatom_deep (tbl_udiff %s) (tbl_ops %s) no_paths no_paths %s %s %s [] []))) "
             "(ntp_valsb %s d) (ops_table_sorted2b %s) "
-            "(orders_okb (order_by %s fst) (order_by %s fst) (reverse d)) (ordfree %s) (ordfree %s))") % (
+            "(orders_okb (order_by %s fst) (order_by %s fst) (reverse d)) (ordfree %s) (ordfree %s) %s)") % (
         D.coq_udiff_table(D.udiff_table(t1, t2)), ops, D.coq_cfg(zip_, thr, True), V.to_coq(t1), V.to_coq(t2),
         conv_tbl, ops, V.to_coq(t1), V.to_coq(t2),
         "(indep_verified d)" if kn else "true", ops, V.to_coq(t2), V.to_coq(t1), V.to_coq(t2),
         D.coq_udiff_table(D.udiff_table(t1, t2)), ops, D.coq_cfg(zip_, thr, True), V.to_coq(t1), V.to_coq(t2),
-        V.to_coq(t2), ops, DC.coq_paths(rrem), DC.coq_paths(radd), V.to_coq(t1), V.to_coq(t2))
+        V.to_coq(t2), ops, DC.coq_paths(rrem), DC.coq_paths(radd), V.to_coq(t1), V.to_coq(t2),
+        "(indep_verified (reverse d))" if kn1 else "true")
 
 
 def holds8(t1, t2, cfg, always=False):
-    """the inversion clause of C08 on one input"""
+    """the inversion clause of C08 on one input (plain bidirectional delta of the pair)"""
     from deepdiff import DeepDiff, Delta
     try:
         d = Delta(DeepDiff(copy.deepcopy(t1), copy.deepcopy(t2), **cfg), bidirectional=True)
@@ -247,23 +251,53 @@ def holds8(t1, t2, cfg, always=False):
             fwd = copy.deepcopy(t1) + d
             back = copy.deepcopy(t2) - d
             again = copy.deepcopy(back) + d
-        return V.typed_eq(fwd, t2) and V.typed_eq(back, t1) and V.typed_eq(again, t2) and cnt.n == 0
+            back2 = copy.deepcopy(fwd) - d
+            back3 = c01.reordered(copy.deepcopy(t2)) - d
+        return (V.typed_eq(fwd, t2) and V.typed_eq(back, t1) and V.typed_eq(again, t2) and V.typed_eq(back2, t1)
+                and V.typed_eq(back3, t1) and cnt.n == 0)
     except Exception:
         return False
+
+
+# the clause of the property a failing case is about (recorded in every case; the known-finding matchers
+# only speak about the inversion clause: F4 / KA / F9 say nothing about refusal, detection of a mismatched base
+# or the history independence of a reused Delta object)
+INVERSION, DETECTION, REFUSAL, REUSE, BUILD = ("inversion: t1+d == t2, t2-d == t1, sequences", "detection of a mismatched base",
+                                               "refusal of subtraction by a directed delta", "a reused Delta object behaves like a fresh one",
+                                               "building the bidirectional delta")
 
 
 def m_path_cache(case):
     """F9: the input fails in the current process state and passes once the process-global lru_cache of
     deepdiff.path._path_to_elements (polluted by an earlier, unrelated Delta application) is cleared"""
     from deepdiff.path import _path_to_elements
+    if case.get("clause") != INVERSION:
+        return False
     t1, t2, cfg, _always = c01._inputs(case)
     if holds8(t1, t2, cfg):
         return False
-    _path_to_elements.cache_clear()
+    clear = getattr(_path_to_elements, "cache_clear", None)    # gone since the fix 587d7f6
+    if clear is None:
+        return False
+    clear()
     return holds8(t1, t2, cfg)
 
 
-MATCHERS = {"F4": lambda c: c01.m_tuple_container(c, holds8), "KA": lambda c: c01.m_alias(c, holds8),
+def _inv_only(m):
+    """a C01 matcher restricted to failures of the inversion clause that the plain bidirectional delta of the SAME pair
+    shows as well (the counterfactual 'passes once the feature is removed' is evaluated with holds8 on that delta; a
+    failure that only occurs for another construction shape / flag combination is not the finding's)"""
+    def f(case):
+        if case.get("clause") != INVERSION:
+            return False
+        t1, t2, cfg, _a = c01._inputs(case)
+        if holds8(t1, t2, cfg):          # the finding's own failure must be present on the plain delta
+            return False
+        return m(case, holds8)
+    return f
+
+
+MATCHERS = {"F4": _inv_only(c01.m_tuple_container), "KA": _inv_only(c01.m_alias),
             "F7": lambda c: False,   # bidirectional deltas always carry the values
             "F9": m_path_cache}
 THRS = (0, 0.33, 0.9)
@@ -303,7 +337,115 @@ def corrupt_value(rng, old):
     return "zz9"
 
 
-def one_pair(ctx, t1, t2, cases, corr=True, hyp_cases=None):
+def graft(t1, t2):
+    """t2 with every container that is typed-equal to the container at the same position of t1 replaced by that very
+    OBJECT (structure sharing between the two inputs, as an edit of a shallow copy produces it).  Deterministic: a
+    replay rebuilds the sharing from the unfolded values"""
+    def g(a, b):
+        if isinstance(a, (list, dict, set, tuple, frozenset)) and type(a) is type(b) and V.canon(a) == V.canon(b):
+            return a
+        if type(a) is list and type(b) is list:
+            return [g(x, y) for x, y in zip(a, b)] + list(b[len(a):])
+        if type(a) is tuple and type(b) is tuple:
+            return tuple([g(x, y) for x, y in zip(a, b)] + list(b[len(a):]))
+        if type(a) is dict and type(b) is dict:
+            return {k: (g(a[k], v) if k in a else v) for k, v in b.items()}
+        return b
+    return g(t1, t2)
+
+
+SHARE_MODES = ("cross", "within", "within+cross")
+
+
+def reshare(t1, t2, mode):
+    """rebuild the object sharing of a generated / replayed pair from its unfolded values: 'within' = the pair is
+    {'x': .., 's1': S, 's2': S}: ONE container object S at two positions of t1 (and one at two positions of t2);
+    'cross' = t2 holds t1's own objects wherever the two agree"""
+    t1, t2 = copy.deepcopy(t1), copy.deepcopy(t2)
+    if mode and mode.startswith("within"):
+        t1["s2"] = t1["s1"]
+        t2["s2"] = t2["s1"]
+    if mode and mode.endswith("cross"):
+        t2 = graft(t1, t2)
+    return t1, t2
+
+
+def with_sharing(ctx, t1, t2):
+    """a pair with shared container objects whose UNFOLDED value stays inside the property's domain (tree-shaped
+    values: the shared object is never edited, the delta does not touch it)"""
+    rng = ctx.rng
+    mode = rng.choice(SHARE_MODES)
+    if mode.startswith("within"):
+        S = V.gen_value(rng, depth=2, width=3, kinds="LLD")
+        if not isinstance(S, (list, dict)):
+            S = [S, {"k": 1}]
+        t1, t2 = {"x": t1, "s1": S, "s2": S}, {"x": t2, "s1": S, "s2": S}
+    ctx.count("shared:" + mode)
+    a, b = reshare(t1, t2, mode)
+    return a, b, mode
+
+
+FLAG_COMBOS = [dict(always_include_values=True, mutate=True), dict(force=True, log_errors=False),
+               dict(mutate=True, force=True, raise_errors=True), dict(always_include_values=True, log_errors=False, raise_errors=True),
+               dict(raise_errors=True, force=True, always_include_values=True, mutate=True)]
+SHAPES = ("object", "verify_symmetry", "dict", "bytes")
+
+
+def build_variant(dd, d, shape, flags):
+    """the same bidirectional delta through another accepted construction shape, with a combination of flags"""
+    from deepdiff import Delta
+    if shape == "object":
+        return Delta(dd, bidirectional=True, **flags)
+    if shape == "verify_symmetry":                      # deprecated alias of bidirectional
+        return Delta(dd, verify_symmetry=True, **flags)
+    if shape == "dict":                                 # a Mapping: the payload of a bidirectional delta
+        return Delta(copy.deepcopy(d.to_dict()), bidirectional=True, **flags)
+    return Delta(d.dumps(), bidirectional=True, **flags)    # serialized bytes
+
+
+def variant_checks(ctx, t1, t2, dd, d, base_case, corrupt_bases, all_=False):
+    """inversion and detection for other construction shapes x flag combinations of the same delta"""
+    rng = ctx.rng
+    combos = [(sh_, fl) for sh_ in SHAPES for fl in FLAG_COMBOS]
+    if not all_:
+        combos = rng.sample(combos, 2)
+    for shape, flags in combos:
+        vcase = dict(base_case, delta_shape=shape, delta_flags=flags)
+        ctx.count("variant:%s" % shape)
+        try:
+            v = build_variant(dd, d, shape, flags)
+        except Exception as e:
+            ctx.fail(dict(vcase, clause=BUILD, observed="raised %s: %s" % (type(e).__name__, str(e)[:120])), "building the bidirectional delta raised (shape %s)" % shape)
+            continue
+        ctx.seen((repr(t1), repr(t2), repr(base_case.get("cfg")), shape, repr(sorted(flags.items()))), nontrivial=bool(d.diff))
+        try:
+            with DC.Counting() as cnt:
+                fwd = copy.deepcopy(t1) + v
+                back = copy.deepcopy(t2) - v
+                again = copy.deepcopy(back) + v
+                back2 = copy.deepcopy(fwd) - v
+            ok = V.typed_eq(fwd, t2) and V.typed_eq(back, t1) and V.typed_eq(again, t2) and V.typed_eq(back2, t1) and cnt.n == 0
+            if not ok:
+                ctx.fail(dict(vcase, clause=INVERSION, observed=dict(add=repr(fwd), sub=repr(back), add_again=repr(again), sum_minus_d=repr(back2), errors=cnt.n)),
+                         "bidirectional delta (shape %s, flags %s) does not invert" % (shape, flags))
+        except Exception as e:
+            ctx.fail(dict(vcase, clause=INVERSION, observed="raised %s: %s" % (type(e).__name__, str(e)[:150])),
+                     "bidirectional delta (shape %s, flags %s) raised while inverting" % (shape, flags))
+        for base in corrupt_bases[:1]:
+            raised = False
+            with DC.Counting() as cnt:
+                try:
+                    copy.deepcopy(base) + v
+                except Exception:
+                    raised = True
+            good = raised if flags.get("raise_errors") else (cnt.n > 0 or raised)
+            ctx.count("variant_corruptions")
+            if not good:
+                ctx.fail(dict(vcase, clause=DETECTION, corrupted_base=repr(base), observed="accepted: raised=%s, errors=%d" % (raised, cnt.n)),
+                         "a mismatched base was accepted (shape %s, flags %s)" % (shape, flags))
+
+
+def one_pair(ctx, t1, t2, cases, corr=True, hyp_cases=None, shared=None, all_variants=False):
     from deepdiff import DeepDiff, Delta
     from deepdiff.delta import DeltaError
     rng = ctx.rng
@@ -313,12 +455,12 @@ def one_pair(ctx, t1, t2, cases, corr=True, hyp_cases=None):
         thr = rng.choice(THRS)
         cfg = dict(zip_ordered_iterables=zip_, threshold_to_diff_deeper=thr)
         desc = c01.describe(t1, t2)
-        base_case = dict(t1=repr(t1), t2=repr(t2), cfg=cfg, **desc)
+        base_case = dict(t1=repr(t1), t2=repr(t2), cfg=cfg, shared=shared, **desc)
         try:
-            dd = DeepDiff(copy.deepcopy(t1), copy.deepcopy(t2), view="tree", **cfg)
+            dd = DeepDiff(*copy.deepcopy((t1, t2)), view="tree", **cfg)      # one joint copy: sharing between t1 and t2 survives
             d = Delta(dd, bidirectional=True)
         except Exception as e:
-            ctx.fail(dict(base_case, observed="raised %s" % type(e).__name__), "building a bidirectional delta raised")
+            ctx.fail(dict(base_case, clause=BUILD, observed="raised %s" % type(e).__name__), "building a bidirectional delta raised")
             continue
         ctx.seen((repr(t1), repr(t2), zip_, thr), nontrivial=bool(d.diff))
         # --- inversion ---
@@ -330,11 +472,11 @@ def one_pair(ctx, t1, t2, cases, corr=True, hyp_cases=None):
             nerr = cnt.n
             okf, okb, oka = V.typed_eq(fwd, t2), V.typed_eq(back, t1), V.typed_eq(again, t2)
             if not (okf and okb and oka) or nerr:
-                ctx.fail(dict(base_case, observed=dict(add=repr(fwd), sub=repr(back), add_again=repr(again), errors=nerr)),
+                ctx.fail(dict(base_case, clause=INVERSION, observed=dict(add=repr(fwd), sub=repr(back), add_again=repr(again), errors=nerr)),
                          "bidirectional delta does not invert: " + ("t1+d != t2" if not okf else "t2-d != t1" if not okb else "(t2-d)+d != t2" if not oka else "errors logged"))
         except Exception as e:
             fwd = back = None
-            ctx.fail(dict(base_case, observed="raised %s: %s" % (type(e).__name__, str(e)[:150])), "bidirectional delta raised while inverting")
+            ctx.fail(dict(base_case, clause=INVERSION, observed="raised %s: %s" % (type(e).__name__, str(e)[:150])), "bidirectional delta raised while inverting")
         # --- (t1 + d) - d == t1 ; t2' - d == t1 for t2' = t2 up to dict insertion order (C08_sub_inverts_from_any_equal_base) ---
         rt2 = c01.reordered(t2)
         rt2_differs = V.canon(rt2) != V.canon(t2)
@@ -345,14 +487,14 @@ def one_pair(ctx, t1, t2, cases, corr=True, hyp_cases=None):
                     back2 = copy.deepcopy(fwd) - d
                     back3 = (copy.deepcopy(rt2) - d) if rt2_differs else None
                 if not V.typed_eq(back2, t1) or (rt2_differs and not V.typed_eq(back3, t1)) or cnt.n:
-                    ctx.fail(dict(base_case, observed=dict(sum_minus_d=repr(back2), reordered_t2=repr(rt2), reordered_t2_minus_d=repr(back3), errors=cnt.n)),
+                    ctx.fail(dict(base_case, clause=INVERSION, observed=dict(sum_minus_d=repr(back2), reordered_t2=repr(rt2), reordered_t2_minus_d=repr(back3), errors=cnt.n)),
                              "bidirectional delta does not invert: " + ("(t1+d)-d != t1" if not V.typed_eq(back2, t1) else "t2'-d != t1 for t2' == t2 with another dict order" if cnt.n == 0 else "errors logged"))
                 ctx.count("sub_from_sum")
                 if rt2_differs:
                     ctx.count("sub_from_reordered_t2")
             except Exception as e:
                 back2 = back3 = None
-                ctx.fail(dict(base_case, observed="raised %s: %s" % (type(e).__name__, str(e)[:150])), "(t1+d)-d or t2'-d raised")
+                ctx.fail(dict(base_case, clause=INVERSION, observed="raised %s: %s" % (type(e).__name__, str(e)[:150])), "(t1+d)-d or t2'-d raised")
         # --- back and forth ---
         if rng.random() < 0.3:
             cur, side = copy.deepcopy(t1), 1
@@ -361,12 +503,12 @@ def one_pair(ctx, t1, t2, cases, corr=True, hyp_cases=None):
                     cur = (cur + d) if side == 1 else (cur - d)
                     want = t2 if side == 1 else t1
                     if not V.typed_eq(cur, want):
-                        ctx.fail(dict(base_case, observed=repr(cur), step=step), "back-and-forth sequence diverges at step %d" % step)
+                        ctx.fail(dict(base_case, clause=INVERSION, observed=repr(cur), step=step), "back-and-forth sequence diverges at step %d" % step)
                         break
                     side = -side
                 ctx.count("back_and_forth_sequences")
             except Exception as e:
-                ctx.fail(dict(base_case, observed="raised %s" % type(e).__name__), "back-and-forth sequence raised")
+                ctx.fail(dict(base_case, clause=INVERSION, observed="raised %s" % type(e).__name__), "back-and-forth sequence raised")
         # --- a directed delta refuses subtraction, whatever the other flags are ---
         refused = {}
         for aiv in (False, True):
@@ -376,13 +518,13 @@ def one_pair(ctx, t1, t2, cases, corr=True, hyp_cases=None):
                 try:
                     got = copy.deepcopy(t2) - Delta(dd, **flags)
                     refused[(aiv, re_)] = False
-                    ctx.fail(dict(base_case, delta_flags=flags, observed="no exception: " + repr(got)[:120]),
+                    ctx.fail(dict(base_case, clause=REFUSAL, delta_flags=flags, observed="no exception: " + repr(got)[:120]),
                              "a non-bidirectional delta accepted subtraction")
                 except ValueError:
                     refused[(aiv, re_)] = True
                 except Exception as e:
                     refused[(aiv, re_)] = False
-                    ctx.fail(dict(base_case, delta_flags=flags, observed="raised %s" % type(e).__name__),
+                    ctx.fail(dict(base_case, clause=REFUSAL, delta_flags=flags, observed="raised %s" % type(e).__name__),
                              "a non-bidirectional delta did not refuse subtraction with ValueError")
         # --- corruption detection ---
         corrupt_cases = []
@@ -417,9 +559,9 @@ def one_pair(ctx, t1, t2, cases, corr=True, hyp_cases=None):
                         res = e
                 ctx.seen((repr(t1), repr(t2), zip_, thr, p, repr(cv)), nontrivial=True)
                 if not raised:
-                    ctx.fail(dict(ccase, observed="raise_errors=True did not raise"), "a mismatched base was accepted (raise_errors=True)")
+                    ctx.fail(dict(ccase, clause=DETECTION, observed="raise_errors=True did not raise"), "a mismatched base was accepted (raise_errors=True)")
                 elif cnt.n == 0 and not isinstance(res, Exception):
-                    ctx.fail(dict(ccase, observed="no error logged"), "a mismatched base was silently accepted (raise_errors=False)")
+                    ctx.fail(dict(ccase, clause=DETECTION, observed="no error logged"), "a mismatched base was silently accepted (raise_errors=False)")
                 if not isinstance(res, Exception):
                     corrupt_cases.append((base, res, cnt.n))
                 # the same location corrupted on the t2 side (for raising subtractions)
@@ -430,6 +572,9 @@ def one_pair(ctx, t1, t2, cases, corr=True, hyp_cases=None):
                         corrupt2.append(set_at(copy.deepcopy(t2), keys2, corrupt_value(rng, ch["new_value"])))
                     except Exception:
                         pass
+        # --- other construction shapes / flag combinations of the same delta ---
+        if all_variants or rng.random() < 0.2:
+            variant_checks(ctx, t1, t2, dd, d, base_case, [b for b, _r, _n in corrupt_cases], all_=all_variants)
         # --- corruption on the t2 side: corrupted_t2 - d must raise / log (the reverse delta's recorded old value is new_value) ---
         sub_corrupt = []
         for cat in ("values_changed", "type_changes"):
@@ -456,9 +601,9 @@ def one_pair(ctx, t1, t2, cases, corr=True, hyp_cases=None):
                         res2 = e
                 ctx.seen((repr(t1), repr(t2), zip_, thr, "sub", repr(base2)), nontrivial=True)
                 if not raised:
-                    ctx.fail(dict(ccase, observed="raise_errors=True did not raise"), "a mismatched base was accepted by a subtraction (raise_errors=True)")
+                    ctx.fail(dict(ccase, clause=DETECTION, observed="raise_errors=True did not raise"), "a mismatched base was accepted by a subtraction (raise_errors=True)")
                 elif cnt.n == 0 and not isinstance(res2, Exception):
-                    ctx.fail(dict(ccase, observed="no error logged"), "a mismatched base was silently accepted by a subtraction (raise_errors=False)")
+                    ctx.fail(dict(ccase, clause=DETECTION, observed="no error logged"), "a mismatched base was silently accepted by a subtraction (raise_errors=False)")
                 if not isinstance(res2, Exception):
                     sub_corrupt.append((base2, res2, cnt.n))
         # --- dictionary_item_removed with a differing value (beyond the quantifier; the model detects it:
@@ -508,7 +653,7 @@ def one_pair(ctx, t1, t2, cases, corr=True, hyp_cases=None):
                 cases.append((DC.model_expr(t1, t2, zip_, thr, True, False, rt2, conv, rrem, radd, want="sub"),
                               [payload, [DC.canon_unordered(back3), False]], dict(tag, op="sub from reordered t2", base=repr(rt2))))
             for base2, res2, n2 in sub_corrupt[:1]:
-                if DC.in_universe(base2) and DC.in_universe(res2):
+                if DC.in_universe(base2) and DC.in_universe(res2) and (ctx.thorough or rng.random() < 0.6):
                     # conv may be asked about the corrupted value (reverse type change without recorded value never occurs: bidirectional)
                     cases.append((DC.model_expr(t1, t2, zip_, thr, True, False, base2, conv, rrem, radd, want="sub"),
                                   [payload, [DC.canon_unordered(res2), n2 > 0]], dict(tag, op="sub on corrupted t2", base=repr(base2))))
@@ -553,12 +698,12 @@ def one_pair(ctx, t1, t2, cases, corr=True, hyp_cases=None):
                         ref = run_on(Delta(dd, bidirectional=True, raise_errors=re_))
                         same = got[0] == ref[0] and (got[1] is None or V.typed_eq(got[1], ref[1])) and (got[2] > 0) == (ref[2] > 0)
                         if not same:
-                            ctx.fail(dict(base_case, raise_errors=re_, step=k, sequence=[(o, repr(b)) for o, b, _c in seq],
+                            ctx.fail(dict(base_case, clause=REUSE, raise_errors=re_, step=k, sequence=[(o, repr(b)) for o, b, _c in seq],
                                           observed=dict(reused=(got[0], repr(got[1]), got[2]), fresh=(ref[0], repr(ref[1]), ref[2]))),
                                      "a reused Delta object behaves differently from a fresh one (history dependence) at step %d" % k)
                             break
                         if is_corrupt and re_ and got[0] == "ok":
-                            ctx.fail(dict(base_case, raise_errors=True, step=k, base=repr(base), observed="no exception"),
+                            ctx.fail(dict(base_case, clause=DETECTION, raise_errors=True, step=k, base=repr(base), observed="no exception"),
                                      "a mismatched base was accepted by a reused Delta object (raise_errors=True)")
                             break
                         # correspondence: every step of the logging object against the pure model
@@ -570,7 +715,7 @@ def one_pair(ctx, t1, t2, cases, corr=True, hyp_cases=None):
                             else:
                                 cases.append((DC.model_expr(t1, t2, zip_, thr, True, False, base, conv, rrem, radd, want="sub"),
                                               [payload, [DC.canon_unordered(got[1]), got[2] > 0]], dict(tag, op="reused object, step %d: sub" % k)))
-            if hyp_cases is not None:
+            if hyp_cases is not None and (ctx.thorough or shared or rng.random() < 0.75):
                 kn = keys_nonneg(t2)
                 ctx.count("hyp:keys_nonneg_true" if kn else "hyp:keys_nonneg_false")
                 ctx.count("hyp:cases")
@@ -603,8 +748,8 @@ def one_pair(ctx, t1, t2, cases, corr=True, hyp_cases=None):
                     ctx.count("hyp:ordfree_t1:" + ("inside" if (nc or nt) else "outside") + "_guards_of_sub_inverts_exact")
                 if of1 and of2:
                     ctx.count("hyp:ordfree_both:" + ("inside" if (nc or nt) else "outside") + "_guards_of_back_and_forth_exact")
-                hyp_cases.append((hyp_expr8(t1, t2, zip_, thr, conv, kn, rrem, radd), [True, True, True, kn, ko, nc, nt, True, True, of1, of2],
-                                  dict(tag, hypotheses="indep_verified/ops_disjoint/sym_ok/keys_nonneg/korder/no_clash/ntp_vals/ops_sorted2/orders_ok(reverse d)/ordfree t1/ordfree t2")))
+                hyp_cases.append((hyp_expr8(t1, t2, zip_, thr, conv, kn, rrem, radd, kn1), [True, True, True, kn, ko, nc, nt, True, True, of1, of2, True],
+                                  dict(tag, hypotheses="indep_verified/ops_disjoint/sym_ok/keys_nonneg/korder/no_clash/ntp_vals/ops_sorted2/orders_ok(reverse d)/ordfree t1/ordfree t2/indep_verified(reverse d)")))
             for base, res, n in corrupt_cases[:2]:
                 if not DC.in_universe(base) or not DC.in_universe(res):
                     continue
@@ -625,12 +770,15 @@ def get_safe(base, level):
 def run(ctx):
     cases = []
     hyp_cases = []
-    pairs = c01.gen_random(ctx, 2000 if ctx.thorough else 330)
-    pairs += gen_clash(ctx, 200 if ctx.thorough else 24)
-    pairs += gen_dict_removed(ctx, 150 if ctx.thorough else 16)
-    pairs += gen_reordered(ctx, pairs, 200 if ctx.thorough else 24)
+    pairs = c01.gen_random(ctx, 1700 if ctx.thorough else 250)
+    pairs += gen_clash(ctx, 120 if ctx.thorough else 24)
+    pairs += gen_dict_removed(ctx, 80 if ctx.thorough else 16)
+    pairs += gen_reordered(ctx, pairs, 120 if ctx.thorough else 24)
     for t1, t2 in pairs:
-        one_pair(ctx, t1, t2, cases, hyp_cases=hyp_cases)
+        mode = None
+        if ctx.rng.random() < 0.13 and not DC.has_container_in_tuple(t1) and not DC.has_container_in_tuple(t2):
+            t1, t2, mode = with_sharing(ctx, t1, t2)
+        one_pair(ctx, t1, t2, cases, hyp_cases=hyp_cases, shared=mode)
     doc_cases(ctx, cases)
     for c in cases[:3]:
         ctx.sample(c[2])
@@ -641,6 +789,9 @@ def run(ctx):
 def replay(ctx, data):
     case = data.get("case", {})
     if "t1" in case:
-        one_pair(ctx, eval(case["t1"]), eval(case["t2"]), [], corr=False)
+        t1, t2 = eval(case["t1"]), eval(case["t2"])
+        if case.get("shared"):
+            t1, t2 = reshare(t1, t2, case["shared"])
+        one_pair(ctx, t1, t2, [], corr=False, shared=case.get("shared"), all_variants=True)
     else:
         run(ctx)
